@@ -119,6 +119,45 @@ def getOp (j : Json) : Except String LayerOp := do
   | "add" => pure (.bin addT)
   | _ => throw s!"bad op {op}"
 
+/-- Concatenate(axis=-1) of channels_last tensors given the channel count of every input -/
+def concatPick (pixel off : Nat) : List (Nat × T) → Rat
+  | [] => 0
+  | (c, v) :: r => if off < c then v.getD (pixel * c + off) 0 else concatPick pixel (off - c) r
+
+def concatLast (chans : List Nat) (vs : List T) : T :=
+  let C := chans.sum
+  if C = 0 then [] else
+    let P := (vs.headD []).length / (chans.headD 1)
+    tabulate (P * C) fun t => concatPick (t / C) (t % C) (chans.zip vs)
+
+def subT (vs : List T) : T :=
+  match vs with
+  | [u, v] => List.zipWith (· - ·) u v
+  | _ => []
+
+def sumT (vs : List T) : T :=
+  match vs with
+  | [] => []
+  | u :: r => r.foldl addT u
+
+/-- a layer of the ORDERED DAG (`OGraph`): merges get the list of their inputs in order -/
+def getNOp (j : Json) : Except String NOp := do
+  let op ← getStr j "op"
+  match op with
+  | "input" => pure .input
+  | "conv" => pure (.conv (← getPlain j))
+  | "bn" => do
+    let cout ← getNat j "cout"
+    pure (.bn (← getBN j) (fun t => t % cout))
+  | "folded" => pure (.folded (← getFolded j))
+  | "relu" => pure (.merge fun vs => relu (vs.headD []))
+  | "add" => pure (.merge sumT)
+  | "sub" => pure (.merge subT)
+  | "concat" => do
+    let chans ← getNatList j "chans"
+    pure (.merge (concatLast chans))
+  | _ => throw s!"bad op {op}"
+
 def getSlot (s : String) : Except String Slot :=
   match s with
   | "kernel" => pure .kernel | "bias" => pure .bias | "gamma" => pure .gamma | "beta" => pure .beta
@@ -256,6 +295,33 @@ def handle (j : Json) : Except String Json := do
       ("sites", nats sites), ("bn_delete", nats (bnToDelete g)), ("kept", nats (keptLayers g)),
       ("qclass", nats ((List.range g.length).map (quantizedClass g (fun i => hasq.contains i)))),
       ("y0", optRats y0), ("y_drop", optRats yDrop), ("y_fold", optRats yFold), ("y_unf", optRats yUnf)]
+  | "ograph" =>
+    -- the DAG with ORDERED n-ary input lists (`OGraph`): the rewiring of convert_to_folded_model
+    -- (inputs of every surviving layer, in order), the as-coded function (batch norms dropped) and
+    -- the function with the parameters carried over into folded layers
+    let nodes ← (← j.getObjVal? "nodes").getArr?
+    let nodes := nodes.toList
+    let g : OGraph ← nodes.mapM fun nd => do
+      pure ({ kind := kindOf (← getStr nd "kind"), ins := ← getNatList nd "preds", op := ← getNOp nd } : ONode)
+    let tab ← getRs j
+    let rs := rsOf tab
+    let x ← getRatList j "x"
+    let out ← getNat j "out"
+    let mode := match (getStr j "mode").toOption with | some "batch_stats_folding" => FoldMode.batch | _ => FoldMode.ema
+    let hasq ← getNatList j "hasq"
+    let G := g.shape
+    let gc := g.convert mode
+    let gr := g.rewire
+    let listOf (h : OGraph) : Json := Json.arr ((List.range g.length).map fun k => nats (h.node k).ins).toArray
+    pure <| Json.mkObj [
+      ("sites", nats (foldSites G)), ("bn_delete", nats (bnToDelete G)), ("kept", nats (keptLayers G)),
+      ("qclass", nats ((List.range g.length).map (quantizedClass G (fun i => hasq.contains i)))),
+      ("ins_rewire", listOf gr), ("ins_convert", listOf gc),
+      ("ins_old", Json.arr ((List.range g.length).map fun k => nats (rewiredInsOld G (g.node k).ins)).toArray),
+      ("out_conv", Json.num ((redirect G out : Nat) : Int)),
+      ("y0", optRats (g.val rs x out)),
+      ("y_drop", optRats (gr.val rs x (redirect G out))),
+      ("y_fold", optRats (gc.val rs x (redirect G out)))]
   | _ => throw s!"unknown op {op}"
 
 def main : IO Unit := lineLoop handle
